@@ -29,6 +29,9 @@ it carries:
   file holds a line that is not valid UTF-8, a statement without LIMIT never ends `records … Ok`; it ends in an error
   report — `FailReadFile`, unless an earlier line (or the join set-up) already ended the run with its own error.
   (With LIMIT the run may end `Ok` BEFORE the bad line is reached: it stops reading, C07 — example.)
+  `lines_before_invalid_line_are_processed` (non-aggregate statements, LIMIT or not): the answer over input whose lines
+  are `A ++ invalid :: rest` is the answer over the lines `A` alone — same printed lines, same count — ended the same
+  way if that run had ended on its own, and with `FailReadFile` if it ended `Ok`.
 * C15 at program level — `line_order_irrelevant`, `permuted_lines_same_answer`: for an aggregate statement text
   whose lowered statement is `PermSafe` on the input, every permutation of the input LINES (within and across
   files) gives the same answer.
@@ -171,6 +174,39 @@ theorem invalid_utf8_is_reported (F : Facts) (defsText queryText : List Char) (f
   cases e with
   | some k => exact ⟨k, rfl⟩
   | none => exact absurd h (invalid_utf8_never_ok F defsText queryText fmt single files hbad hnl n ls)
+
+/-- the statement of the query text is not an aggregate statement -/
+def QueryIsSelect (F : Facts) (queryText : List Char) : Prop :=
+  ∀ query stmt fromTable join, parseText (lexOracles F) (regexValidFn F) queryText = .stmt query →
+    stmtOf query = some (stmt, fromTable, join) → ∃ s, stmt = .select s
+
+/-- **Which error, and what of the lines before** (C12, non-aggregate statements, with or without LIMIT). Let the lines
+of all input files be `A ++ invalid :: rest` — `invalid` the first line that is not valid UTF-8 — and let `files'` be any
+input holding exactly the lines `A` (e.g. the files cut off before that line). Then the answer over `files` is
+(a) `skip` — the case did not ship a fact about a later line —, or (b) the answer over `files'` itself — that run had
+ended before reaching the line: an error of its own, LIMIT reached, a rejected text —, or (c) the answer over `files'`,
+which ended `Ok`, with the SAME printed lines and the SAME line count and the error `FailReadFile`: every line before
+the invalid one is processed and printed exactly as if the input ended there, and the invalid line is reported.
+With `invalid_utf8_never_ok`: without LIMIT, (b) can only be an error that an earlier line raised. -/
+theorem lines_before_invalid_line_are_processed (F : Facts) (defsText queryText : List Char) (fmt : Print.Format)
+    (single : Bool) (files files' : List (List Nat)) (rest : List (Except Unit (List Nat)))
+    (hsplit : files.flatMap Reader.lines = files'.flatMap Reader.lines ++ .error () :: rest)
+    (hsel : QueryIsSelect F queryText) :
+    runText F defsText queryText fmt single files = .skip "line facts" ∨
+    runText F defsText queryText fmt single files = runText F defsText queryText fmt single files' ∨
+    ∃ n ls, runText F defsText queryText fmt single files' = .records none n ls ∧
+      runText F defsText queryText fmt single files = .records (some .failReadFile) n ls := by
+  apply runText_rel_files (fun a b => a = .skip "line facts" ∨ a = b ∨
+    ∃ n ls, b = .records none n ls ∧ a = .records (some .failReadFile) n ls) (fun _ => .inr (.inl rfl))
+  intro defs query tables stmt fromTable join _ hq _ hs
+  obtain ⟨q, rfl⟩ := hsel query stmt fromTable join hq hs
+  rcases runStatement_read_error F tables q fromTable join files files' rest hsplit with h | h | ⟨t, h1, h2, h3⟩
+  · left; rw [h]; rfl
+  · right; left; rw [h]
+  · rw [h1, h3]
+    rcases answerOf_read_error F fmt single t h2 with e | ⟨n, ls, e1, e2⟩
+    · right; left; exact e
+    · right; right; exact ⟨n, ls, e1, e2⟩
 
 /-! ### C15: order-insensitive aggregates ignore the order of the input lines -/
 
@@ -415,6 +451,13 @@ example : Except.error () ∈ [[97, 59, 49, 10, 195, 10, 98, 59, 50, 10]].flatMa
   simp
 example : recordsOf (runText exFacts exDefs "select count(*) from t".toList .text false [strBytes "a;1\n" ++ [195, 10] ++ strBytes "b;2\n"]) =
     some (some .failReadFile, 1, []) := by decide +kernel
+/-- hypothesis of `lines_before_invalid_line_are_processed`: the lines of the files are the lines of the cut-off input,
+the invalid line, and the rest; its case (c): the same record, the same count, `Ok` against `FailReadFile` -/
+example : [[97, 59, 49, 10, 195, 10, 98, 59, 50, 10]].flatMap Reader.lines =
+    [[97, 59, 49, 10]].flatMap Reader.lines ++ Except.error () :: [Except.ok [98, 59, 50]] := by rfl
+example : recordsOf (runText exFacts exDefs "select k from t".toList .text false [strBytes "a;1\n"]) = some (none, 1, [strBytes "k: 'a'"]) ∧
+    recordsOf (runText exFacts exDefs "select k from t".toList .text false [strBytes "a;1\n" ++ [195, 10] ++ strBytes "b;2\n"]) =
+      some (some .failReadFile, 1, [strBytes "k: 'a'"]) := by decide +kernel
 /-- with LIMIT the run may end `Ok` before the invalid line is reached: it stopped reading (C07) -/
 example : recordsOf (runText exFacts exDefs "select k from t limit 1".toList .text false [strBytes "a;1\n" ++ [195, 10] ++ strBytes "b;2\n"]) =
     some (none, 1, [strBytes "k: 'a'"]) := by decide +kernel
